@@ -4,7 +4,7 @@
    ordering, exception class and warning by the correspondence check of this property. *)
 From Coq Require Import String ZArith List Bool.
 From XV Require Import Base.Label Base.LSet Base.ODict Base.Attr Base.Outcome Model.Hypergraph
-  Proofs.HgViews Proofs.HgInv Proofs.HgInvOps Proofs.HgStep Proofs.HgErrors Proofs.HgSpec.
+  Proofs.HgViews Proofs.HgInv Proofs.HgInvOps Proofs.HgStep Proofs.HgErrors Proofs.HgSpec Proofs.ShuffleProofs.
 Import ListNotations.
 Open Scope Z_scope.
 
@@ -77,6 +77,24 @@ Theorem C05_swap_preserves : forall n1 n2 e1 e2 s,
   (forall e, length (mems s' e) = length (mems s e)).
 Proof. exact double_edge_swap_preserves. Qed.
 Print Assumptions C05_swap_preserves.
+
+(* a random edge shuffle of two distinct edges, for ANY sample random.sample can return (distinct
+   elements of the symmetric difference, as many as e1 has outside the intersection): every degree,
+   every size, all ids and all attributes are kept, other edges are untouched, the nodes of the two
+   edges are only redistributed and the shared nodes stay in both *)
+Theorem C05_shuffle_preserves : forall s e1 e2 sample m1 m2,
+  Inv s -> e1 <> e2 -> get e1 (h_edge s) = Some m1 -> get e2 (h_edge s) = Some m2 ->
+  sample_ok s e1 e2 sample -> (length (h_edge s) <? 2)%nat = false ->
+  let t := st_of (random_edge_shuffle e1 e2 sample s) in
+  nkeys t = nkeys s /\ ekeys t = ekeys s /\ h_nattr t = h_nattr s /\ h_eattr t = h_eattr s /\
+  h_net t = h_net s /\ h_uid t = h_uid s /\
+  (forall n, length (mships t n) = length (mships s n)) /\
+  (forall e, length (mems t e) = length (mems s e)) /\
+  (forall e, e <> e1 -> e <> e2 -> mems t e = mems s e) /\
+  (forall x, In x (mems t e1) \/ In x (mems t e2) <-> In x (mems s e1) \/ In x (mems s e2)) /\
+  (forall x, In x (mems s e1) -> In x (mems s e2) -> In x (mems t e1) /\ In x (mems t e2)).
+Proof. exact shuffle_preserves. Qed.
+Print Assumptions C05_shuffle_preserves.
 
 Example C05_nonvacuous :
   let s := run [OAddEdgesFrom (EB1 [[LInt 1; LInt 2]; [LInt 3; LInt 4]; [LInt 1]]) []] hg_empty in
